@@ -37,7 +37,7 @@ STD_CONSTS = {
     'string.ascii_letters': _string.ascii_letters, 'string.ascii_lowercase': _string.ascii_lowercase,
     'string.ascii_uppercase': _string.ascii_uppercase, 'string.digits': _string.digits,
     'errno.EMFILE': 24, 'errno.ENFILE': 23, 'errno.ENOENT': 2, 'errno.EACCES': 13,
-    're.UNICODE': re.UNICODE, 're.IGNORECASE': re.IGNORECASE, 're.I': re.I, 're.U': re.U,
+    'math.inf': float('inf'), 'math.pi': 3.141592653589793, 're.UNICODE': re.UNICODE, 're.IGNORECASE': re.IGNORECASE, 're.I': re.I, 're.U': re.U,
 }
 PURE_FUNCS = {
     'len': len, 'min': min, 'max': max, 'ord': ord, 'chr': chr, 'str': str, 'int': int, 'abs': abs, 'sum': sum, 'any': any, 'all': all,
